@@ -9,9 +9,12 @@ package props
 import (
 	"errors"
 	"fmt"
+	"io"
+	"net/http"
 	"sort"
 	"strings"
 	"sync"
+	"sync/atomic"
 	"testing"
 	"time"
 
@@ -638,4 +641,119 @@ func runC20cc(c c20ccCase) *vlib.Outcome {
 
 func TestC20CapacityConcurrent(t *testing.T) {
 	vlib.Check(t, "C20", genC20cc, runC20cc)
+}
+
+// ---------------------------------------------------------------------
+// the breaker on the outbound HTTP path
+//
+// core.HTTPRequest.Do consults the breaker registered for its host.  A burst
+// of concurrent requests (what the actions of one event, or of many, produce)
+// must not get more requests out than the breaker's limit; the others are
+// answered with status 430.  No network: the http.Client that core takes from
+// its client cache is replaced by one whose transport counts the requests.
+
+type c20hCase struct {
+	Limit  int64 `json:"limit"`
+	Bursts []int `json:"bursts"` // goroutines per burst (all within one interval)
+	Spin   []int `json:"spin"`
+}
+
+func genC20h(t *rapid.T) c20hCase {
+	var c c20hCase
+	c.Limit = int64(rapid.IntRange(1, 5).Draw(t, "limit"))
+	nb := rapid.IntRange(1, 3).Draw(t, "nbursts")
+	for i := 0; i < nb; i++ {
+		c.Bursts = append(c.Bursts, rapid.IntRange(2, 16).Draw(t, fmt.Sprintf("burst%d", i)))
+	}
+	for i := 0; i < 16; i++ {
+		c.Spin = append(c.Spin, rapid.SampledFrom([]int{0, 0, 0, 10, 100, 1000}).Draw(t, fmt.Sprintf("spin%d", i)))
+	}
+	return c
+}
+
+type c20CountRT struct {
+	mu sync.Mutex
+	n  int
+}
+
+func (rt *c20CountRT) RoundTrip(req *http.Request) (*http.Response, error) {
+	rt.mu.Lock()
+	rt.n++
+	rt.mu.Unlock()
+	return &http.Response{StatusCode: 200, Status: "200 OK", Proto: "HTTP/1.1", ProtoMajor: 1, ProtoMinor: 1,
+		Header: http.Header{}, Body: io.NopCloser(strings.NewReader("ok")), Request: req}, nil
+}
+
+var c20hSeq int64
+
+func runC20h(c c20hCase) *vlib.Outcome {
+	o := &vlib.Outcome{}
+	if c.Limit < 1 || c.Limit > 100 || len(c.Bursts) < 1 || len(c.Bursts) > 8 || len(c.Spin) < 16 {
+		o.Discard = true
+		return o
+	}
+	// a long interval: every burst of the case falls into one window
+	b, err := core.NewOutboundBreaker(c.Limit, time.Minute)
+	if err != nil {
+		o.Fail("NEW", "%v", err)
+		return o
+	}
+	host := fmt.Sprintf("breaker%d.invalid", atomic.AddInt64(&c20hSeq, 1))
+	core.HTTPBreakers[host] = b
+	defer delete(core.HTTPBreakers, host)
+	rt := &c20CountRT{}
+	core.HTTPClientCache.Add(*core.NewHTTPClientSpec(), &http.Client{Transport: rt})
+	defer core.HTTPClientCache.Add(*core.NewHTTPClientSpec(), &http.Client{})
+	total, admitted, refused := 0, int64(0), int64(0)
+	for _, n := range c.Bursts {
+		if n < 1 || n > 16 {
+			o.Discard = true
+			return o
+		}
+		total += n
+		var wg sync.WaitGroup
+		start := make(chan struct{})
+		for i := 0; i < n; i++ {
+			wg.Add(1)
+			go func(i int) {
+				defer wg.Done()
+				<-start
+				x := 0
+				for j := 0; j < c.Spin[i]; j++ {
+					x += j
+				}
+				_ = x
+				res, _ := core.NewHTTPRequest(newCtx(), "GET", "http://"+host+"/x", "").Do(newCtx())
+				if res != nil && res.Status == 200 {
+					atomic.AddInt64(&admitted, 1)
+				} else if res != nil && res.Status == 430 {
+					atomic.AddInt64(&refused, 1)
+				}
+			}(i)
+		}
+		close(start)
+		wg.Wait()
+	}
+	rt.mu.Lock()
+	out := rt.n
+	rt.mu.Unlock()
+	if int64(total) > c.Limit {
+		o.NonTrivial = true
+	}
+	if int64(out) > c.Limit {
+		o.Fail("BREAKER_LIMIT_EXCEEDED", "limit %d per minute, bursts %v of concurrent HTTP requests to one host: %d requests went out (%d answered 200, %d answered 430)", c.Limit, c.Bursts, out, admitted, refused)
+		return o
+	}
+	want := int64(total)
+	if want > c.Limit {
+		want = c.Limit
+	}
+	if int64(out) < want {
+		o.Fail("BREAKER_REFUSED_BELOW_LIMIT", "limit %d per minute, bursts %v: only %d requests went out", c.Limit, c.Bursts, out)
+	}
+	return o
+}
+
+func TestC20HTTPBreaker(t *testing.T) {
+	vlib.Check(t, "C20", genC20h, runC20h)
 }
